@@ -18,6 +18,11 @@ import time
 import z3
 
 
+# solver time caps are multiplied by this factor (the harness re-runs undecided items once with a larger factor, so that a
+# loaded machine does not turn a decidable obligation into an inconclusive one)
+TIMEOUT_SCALE = [float(__import__('os').environ.get('VERIF_TIMEOUT_SCALE', '1') or 1)]
+
+
 class Inconclusive(Exception):
     """The harness could not decide (bound hit, solver unknown, unsupported)."""
 
@@ -89,7 +94,7 @@ class Ctx:
     # -- solver -----------------------------------------------------------
     def _check(self, solver, timeout, *extra):
         t = time.time()
-        solver.set('timeout', int(timeout))
+        solver.set('timeout', int(timeout * TIMEOUT_SCALE[0]))
         r = solver.check(*extra)
         self.stats.queries += 1
         self.stats.solver_s += time.time() - t
